@@ -30,65 +30,65 @@ namespace
   }
 }
 
-#define REAL(type, name) static type r = nullptr; if(!r) r = real<type>(name)
+#define REAL(name, ...) using fn_t = __VA_ARGS__; static fn_t r = nullptr; if(!r) r = real<fn_t>(name)
 
 extern "C" int pthread_mutex_lock(pthread_mutex_t* m)
 {
   if(vs_managed()) return vs_op_mutex_lock(m);
-  REAL(int (*)(pthread_mutex_t*), "pthread_mutex_lock");
+  REAL("pthread_mutex_lock", int (*)(pthread_mutex_t*));
   return r(m);
 }
 extern "C" int pthread_mutex_trylock(pthread_mutex_t* m)
 {
   if(vs_managed()) return vs_op_mutex_trylock(m);
-  REAL(int (*)(pthread_mutex_t*), "pthread_mutex_trylock");
+  REAL("pthread_mutex_trylock", int (*)(pthread_mutex_t*));
   return r(m);
 }
 extern "C" int pthread_mutex_unlock(pthread_mutex_t* m)
 {
   if(vs_managed()) return vs_op_mutex_unlock(m);
-  REAL(int (*)(pthread_mutex_t*), "pthread_mutex_unlock");
+  REAL("pthread_mutex_unlock", int (*)(pthread_mutex_t*));
   return r(m);
 }
 extern "C" int pthread_cond_wait(pthread_cond_t* c, pthread_mutex_t* m)
 {
   if(vs_managed()) return vs_op_cond_wait(c, m);
-  REAL(int (*)(pthread_cond_t*, pthread_mutex_t*), "pthread_cond_wait");
+  REAL("pthread_cond_wait", int (*)(pthread_cond_t*, pthread_mutex_t*));
   return r(c, m);
 }
 extern "C" int pthread_cond_broadcast(pthread_cond_t* c)
 {
   if(vs_managed()) return vs_op_cond_broadcast(c);
-  REAL(int (*)(pthread_cond_t*), "pthread_cond_broadcast");
+  REAL("pthread_cond_broadcast", int (*)(pthread_cond_t*));
   return r(c);
 }
 extern "C" int pthread_cond_signal(pthread_cond_t* c)
 {
   if(vs_managed()) return vs_op_cond_signal(c);
-  REAL(int (*)(pthread_cond_t*), "pthread_cond_signal");
+  REAL("pthread_cond_signal", int (*)(pthread_cond_t*));
   return r(c);
 }
 extern "C" int pthread_cond_timedwait(pthread_cond_t* c, pthread_mutex_t* m, const struct timespec* ts)
 {
   if(vs_managed()) { fprintf(stderr, "vsched: pthread_cond_timedwait is not modelled\n"); _exit(98); }
-  REAL(int (*)(pthread_cond_t*, pthread_mutex_t*, const struct timespec*), "pthread_cond_timedwait");
+  REAL("pthread_cond_timedwait", int (*)(pthread_cond_t*, pthread_mutex_t*, const struct timespec*));
   return r(c, m, ts);
 }
 extern "C" int pthread_cond_clockwait(pthread_cond_t* c, pthread_mutex_t* m, clockid_t clk, const struct timespec* ts)
 {
   if(vs_managed()) { fprintf(stderr, "vsched: pthread_cond_clockwait is not modelled\n"); _exit(98); }
-  REAL(int (*)(pthread_cond_t*, pthread_mutex_t*, clockid_t, const struct timespec*), "pthread_cond_clockwait");
+  REAL("pthread_cond_clockwait", int (*)(pthread_cond_t*, pthread_mutex_t*, clockid_t, const struct timespec*));
   return r(c, m, clk, ts);
 }
 extern "C" int pthread_create(pthread_t* t, const pthread_attr_t* a, void* (*fn)(void*), void* arg)
 {
   if(vs_managed()) return vs_op_create(t, a, fn, arg);
-  REAL(int (*)(pthread_t*, const pthread_attr_t*, void* (*)(void*), void*), "pthread_create");
+  REAL("pthread_create", int (*)(pthread_t*, const pthread_attr_t*, void* (*)(void*), void*));
   return r(t, a, fn, arg);
 }
 extern "C" int pthread_join(pthread_t t, void** ret)
 {
   if(vs_managed()) return vs_op_join(t, ret);
-  REAL(int (*)(pthread_t, void**), "pthread_join");
+  REAL("pthread_join", int (*)(pthread_t, void**));
   return r(t, ret);
 }
